@@ -51,6 +51,9 @@ def typeOfC : CExpr → CT
   | .tern _ a b => (typeOfC a).common (typeOfC b)
   | .macro _ _ ret _ => ret
   | .load _ _ t => t
+  | .post _ t _ => t
+  | .call _ _ ret _ => ret
+  | .stmtexpr t _ _ => t
 
 /-- 6.3.1.3 on bit patterns: narrowing keeps the low bits, widening sign-extends iff the SOURCE is signed. -/
 def convBits (src dst : CT) {n : Nat} (x : BitVec n) : BitVec dst.width :=
@@ -183,6 +186,9 @@ def evalC (ms : MacroSem) (σ : MState) : CExpr → Except Stuck Val
           let raw : Val := .bv w (BitVec.ofNat w (loadBytes σ.mem ea.toNat (w / 8)))
           convC { signed := s, width := w } t raw
       | _ => .error (.unbound "EA")
+  | .post _ _ _ => .error (.undef "hybrid: use evalCH")
+  | .call _ _ _ _ => .error (.undef "hybrid: use evalCH")
+  | .stmtexpr _ _ _ => .error (.undef "hybrid: use evalCH")
 def evalCArgs (ms : MacroSem) (σ : MState) : List CExpr → List CT → Except Stuck (List Val)
   | [], _ => .ok []
   | _ :: _, [] => .error (.sort "macro arity")
@@ -255,6 +261,8 @@ def execC (ms : MacroSem) : Nat → CStmt → MState → Except Stuck MState
         let v ← evalC ms σ e
         let v ← convC (typeOfC e) utT v
         .ok { σ with locals := setLocal (setLocal σ.locals "jump_flag" (.bool true)) "jump_target" v }
+    | .exprstmt _ => .error (.undef "hybrid: use execCH")
+    | .ret _ => .error (.undef "hybrid: use execCH")
     | .skip w =>
         if w == "STORE_SLOT_CANCELLED(pkt, slot);" then
           .ok { σ with locals := setLocal σ.locals "$slot_cancelled" (.bool true) }
